@@ -1001,9 +1001,9 @@ def _read_asn1_integer(
         # Coverage is skipped because branch will not occur with no loop
         for i in range(len(b_int) - 1, -1, -1):  # pragma: nocover
             if b_int[i] == 0xFF:
-                b_int[i - 1] += 1
+                # Carry into the next more significant octet.
                 b_int[i] = 0
-                break
+                continue
 
             else:
                 b_int[i] += 1
